@@ -48,6 +48,9 @@ void load(const char *filename,
   std::vector<uint32_t> buffer(remainingFileSize);
   file.read(reinterpret_cast<char*>(buffer.data()), remainingFileSize);
 
+  // Clear the DUT memory first, so that a run does not depend on its power-on contents.
+  std::memset(top->hex->u_memory->memory_q.data(), 0, sizeof(top->hex->u_memory->memory_q));
+
   // Write program to DUT memory.
   std::memcpy(top->hex->u_memory->memory_q.data(), buffer.data(), buffer.size());
 
